@@ -725,14 +725,30 @@ class MatInterp:
         if short == 'gmd' and len(c.args) == 3:
             vals = [self.ev(x, env, fn) for x in c.args]
             return self.gmd_of(vals)
-        if short == 'reshape' and isinstance(c.func, ast.Attribute):
-            base = self.ev(c.func.value, env, fn)
+        if short in ('reshape', 'ravel', 'flatten') and isinstance(c.func, ast.Attribute):
+            # method and function forms: x.reshape(shape, order=), np.reshape(x, shape, order), x.ravel(order) / x.flatten(order), np.ravel(x, order)
+            np_form = isinstance(c.func.value, ast.Name) and c.func.value.id in ('np', 'numpy')
+            cargs = list(c.args)
+            if np_form:
+                if not cargs:
+                    raise Unknown('reshape without an array')
+                base = self.ev(cargs[0], env, fn)
+                cargs = cargs[1:]
+            else:
+                base = self.ev(c.func.value, env, fn)
             order = 'C'
-            if 'order' in kw:
-                if not isinstance(kw['order'], ast.Constant):
+            okw = kw.get('order')
+            if short == 'reshape' and np_form and len(cargs) == 2:
+                okw, cargs = cargs[1], cargs[:1]
+            if short in ('ravel', 'flatten'):
+                if cargs:
+                    okw = cargs[0]
+                cargs = [ast.UnaryOp(op=ast.USub(), operand=ast.Constant(value=1))]
+            if okw is not None:
+                if not (isinstance(okw, ast.Constant) and okw.value in ('C', 'F')):
                     raise Unknown('reshape order')
-                order = kw['order'].value
-            shape = c.args[0].elts if len(c.args) == 1 and isinstance(c.args[0], ast.Tuple) else c.args
+                order = okw.value
+            shape = cargs[0].elts if len(cargs) == 1 and isinstance(cargs[0], ast.Tuple) else cargs
             flat = len(shape) == 1
             if flat:
                 # matrix -> vector
